@@ -404,6 +404,29 @@ def s6_local(ctx, rep):
             "the recorded metric list is assembled from something else than this poll's retrieve(...) result (merged with a cache, filtered)")
 
 
+def s1_only_writer(ctx, rep, clause="S1"):
+    """the report line is the only place where the content of a report reaches the stream the reader scans: no other print of
+    syne_tune/report.py writes a value taken from its arguments (an error message that echoes the rejected report can contain the
+    tag and a `{...}` and is then parsed as a report)"""
+    P = ctx.P
+    n = 0
+    bad = []
+    for f in sorted(P.functions.values(), key=lambda f_: f_.qualname):
+        if f.module.relpath != "syne_tune/report.py" or f.name == "_report_logger":
+            continue
+        n += 1
+        params = {p_ for p_ in f.params if p_ != "self"}
+        if f.node.args.kwarg:
+            params.add(f.node.args.kwarg.arg)
+        for x in walk_shallow(f.node):
+            if isinstance(x, ast.Call) and isinstance(x.func, ast.Name) and x.func.id == "print":
+                if any(isinstance(y, ast.Name) and y.id in params for a_ in x.args for y in ast.walk(a_)):
+                    bad.append((f, x))
+    rep.put(not bad and n > 0, clause, "who_may_write", "report.py: only _report_logger prints values taken from a report", bad[0][0] if bad else None,
+            bad[0][1] if bad else None, f"{n} functions", f"`{U(bad[0][1])[:80] if bad else ''}` prints its argument on the stream the backend scans for reports: "
+            "a rejected report that contains the tag is read back as a report line (and the malformed payload loses every metric of the trial)")
+
+
 def s1_flush(ctx, rep, clause="S1"):
     """_report_logger: the report line is printed and THEN the stream is flushed, on every path - a block-buffered stdout (the local
     backend runs scripts with stdout redirected to a file) otherwise holds the last report back until the next one, for ever if the
@@ -426,6 +449,7 @@ def s1_flush(ctx, rep, clause="S1"):
 def run(ctx, rep, tier="quick"):
     s6_local(ctx, rep)
     s1_flush(ctx, rep)
+    s1_only_writer(ctx, rep)
     s1(ctx, rep)
     s2(ctx, rep)
     s3(ctx, rep)
